@@ -28,7 +28,8 @@ OpNames  == {"addone", "myop"}                 \* "addone" collides with a built
 Builtins == {"addone"}
 MacroNames == {"m:x"}
 Bodies   == {"addone", "myop", "lit100", "lit200", "m:x"}   \* "m:x": self reference
-Defs     == {"addone", "myop", "m:x", "addone | m:x", "m:x | myop"}
+\* "addone k=a:b" / "myop k=a:b": a colon in a parameter VALUE does not make the name a macro name
+Defs     == {"addone", "myop", "m:x", "addone | m:x", "m:x | myop", "addone k=a:b", "myop k=a:b"}
 GridNames == {"g1.datum", "g2.datum"}
 
 VARIABLES cons, res, ops, cache, nextObj, hist
@@ -55,6 +56,8 @@ ResolveName(c, n, fuel) ==
 
 StepsOf(d) == CASE d = "addone | m:x" -> <<"addone", "m:x">>
                 [] d = "m:x | myop"   -> <<"m:x", "myop">>
+                [] d = "addone k=a:b" -> <<"addone">>
+                [] d = "myop k=a:b"   -> <<"myop">>
                 [] OTHER -> <<d>>
 
 ResolveDef(c, d) ==
@@ -141,4 +144,9 @@ Emit == PrintT(<<"HIST", ToJson([hist |-> hist,
             handles |-> [h \in DOMAIN ops |-> ops[h]],
             cache |-> cache])>>)
 EmitInv == (Len(hist) > 0) => Emit
+\* ... and one history per TRANSITION (an action constraint is evaluated for every generated
+\* successor, also those leading to a state already seen): a path to the source state plus this
+\* action.  Two definitions that resolve to the same behaviour lead to the same state; only this
+\* export replays both.
+EmitEdge == PrintT(<<"HIST", ToJson([hist |-> hist'])>>)
 =============================================================================
